@@ -8,6 +8,7 @@ import os
 
 from vlib.anchoring import Taint, find_sites
 from vlib.core import REPO, AnalysisError, Report
+from vlib.flow import parent_map
 from vlib.grammar import GrammarModel, ladder
 from vlib.nodemodel import NodeModel
 from vlib.opforms import handler_forms
@@ -46,6 +47,7 @@ def run(rep: Report, tier: str) -> None:
 	rule_e(rep, idx)
 	rule_f(rep, idx, pm, tm)
 	rule_g(rep, idx, pm)
+	rule_chain(rep, idx, pm)
 
 
 # ---- (a) precedence ---------------------------------------------------------------------------------------------------
@@ -494,3 +496,39 @@ def rule_g(rep, idx, pm) -> None:
 		want = {'items': 'all', 'keys': ('sym', '_'), 'values': ('_', 'sym')}
 		for k in ('items', 'keys', 'values'):
 			r.check(got.get(k) == want[k], f'{f.name}:{k}', (PY2CPP, n.lineno), f'{f.qualname}: the `{k}` row binds {got.get(k)}, but a C++ structured binding over a map yields (key, value), so `{k}` must bind {want[k]}: a loop over d.{k}() would walk the other half of each pair', unparse(n)[:160])
+
+
+def rule_chain(rep, idx, pm) -> None:
+	"""`a - b - c` is one node with elements [a, -, b, -, c]; Py2Cpp renders it step by step. Each step must print ITS operator and the steps must run left to right
+	(the printed text is re-parsed by the C++ compiler, which groups the same level left to right as Python does)."""
+	from vlib import fold
+	r = rep.rule('C01/chain-rendered-per-operator', 'Py2Cpp.proc_binary_operation_expression renders a flattened operator chain front to back and passes the operator of each step (loop-variant) to the template', floor=2)
+	f = pm.methods.get('proc_binary_operation_expression')
+	if f is None:
+		r.skip('fold-site', (PY2CPP, 1), 'Py2Cpp.proc_binary_operation_expression vanished')
+		r.floor = 1
+		return
+	n_sites = 0
+	for c_ in ast.walk(f.node):
+		if not (isinstance(c_, ast.Call) and isinstance(c_.func, ast.Attribute) and c_.func.attr == 'render'):
+			continue
+		vars_expr = next((k.value for k in c_.keywords if k.arg == 'vars'), None)
+		if not isinstance(vars_expr, ast.Dict):
+			continue
+		opv = next((v for k, v in zip(vars_expr.keys, vars_expr.values) if const_str(k) == 'operator'), None)
+		lp = fold.enclosing_loop(f.node, c_)
+		if opv is None or lp is None:
+			continue
+		n_sites += 1
+		r.check(fold.is_variant(lp, opv), f'operator-per-step:{const_str(c_.args[1]) if len(c_.args) > 1 else "?"}', (PY2CPP, c_.lineno), f'the template gets operator `{unparse(opv)}`, which does not change from one step of the chain to the next: `a - b + c` would be printed with the first operator twice', unparse(c_)[:120])
+		leftv = next((v for k, v in zip(vars_expr.keys, vars_expr.values) if const_str(k) == 'left'), None)
+		pmap = parent_map(f.node)
+		stmt = c_
+		while id(stmt) in pmap and not isinstance(stmt, ast.stmt):
+			stmt = pmap[id(stmt)]
+		if isinstance(stmt, ast.Assign) and leftv is not None:
+			r.check(unparse(stmt.targets[0]) == unparse(leftv), f'accumulator-is-left:{const_str(c_.args[1]) if len(c_.args) > 1 else "?"}', (PY2CPP, c_.lineno), f'the rendered step is stored in `{unparse(stmt.targets[0])}` but the next step prints `{unparse(leftv)}` on the left: the chain must accumulate on the left (left-associative, as Python evaluates it)', unparse(stmt)[:120])
+	if not n_sites:
+		r.skip('fold-site', f.where, 'no render(..., vars={operator: ...}) inside a loop of proc_binary_operation_expression')
+	back = fold.backward_consumers(f.node, set(f.params()[1:]))
+	r.check(not back, 'front-to-back', f.where, f'the chain is consumed from the end ({[unparse(b) for b in back][:2]})')
